@@ -76,16 +76,27 @@ var metaKeys = []string{"count", "timestamp", "slot_length", "is_unique", "descr
 
 // inputClass classifies a (name, description) pair from the input itself, so that the signature of a
 // violation names the kind of text that triggered it.
-func inputClass(name, desc string) string {
-	for _, k := range []string{"count", "timestamp"} {
-		if name == k {
-			return "name-eq-" + k
+// triggers lists in which of the two shapes a name/description carries the raw bytes "count" or
+// "timestamp" once JSON-encoded: the string IS the key, or it ENDS in a double quote followed by the
+// key (its encoding then ends in  \"count"  ). These are the only two shapes possible, because every
+// other double quote inside an encoded string is preceded by a backslash.
+func triggers(name, desc string) []string {
+	var out []string
+	for _, f := range []struct{ field, v string }{{"name", name}, {"desc", desc}} {
+		for _, k := range []string{"count", "timestamp"} {
+			if f.v == k {
+				out = append(out, f.field+"-eq-"+k)
+			} else if strings.HasSuffix(f.v, `"`+k) {
+				out = append(out, f.field+"-endsq-"+k)
+			}
 		}
 	}
-	for _, k := range []string{"count", "timestamp"} {
-		if desc == k {
-			return "desc-eq-" + k
-		}
+	return out
+}
+
+func inputClass(name, desc string) string {
+	if len(triggers(name, desc)) > 0 {
+		return "key-shaped-text"
 	}
 	for _, k := range metaKeys {
 		if name == k {
@@ -151,10 +162,12 @@ func usableName(s string) bool {
 var coreNames = []string{
 	"count", "timestamp", "slot_length", `"count"`, `count":7`, `},{`, `"count":7,"x":"`, "is_unique", "name",
 	"orders", "my store", " count", "count ", "Count", "счёт", "数量count", "cøunt", "count\t", `a"count"b`, `\"count\"`, "timestamp_r", "root_node_id",
+	`x"count`, `"timestamp`, `"slot_length`,
 }
 var coreDescs = []string{
 	"count", "timestamp", `"count"`, `"count":`, `"count":7`, `count":7`, `},{`, `{"count":1,"timestamp":2}`, "slot_length",
 	"", "an ordinary description", "ünïcödé 数量 🗄", `\`, `\"count\":9`, "count timestamp", `","count":99,"timestamp":1,"x":"`,
+	`see "count`, `x"timestamp`, `"count" and "timestamp`,
 }
 
 func buildCases(r *report.Run) []caseSpec {
@@ -250,7 +263,11 @@ func (c caseSpec) fingerprint() string {
 	case c.Slot%2 == 1:
 		slot = "odd"
 	}
-	return fmt.Sprintf("%s|%s|u=%v|slot=%s|llb=%v|cache=%d|custom=%v", c.inputClass(), c.Profile, c.Unique, slot, c.LLB, c.Cache, c.Custom)
+	cls := c.inputClass()
+	if tr := triggers(c.Name, c.Desc); len(tr) > 0 {
+		cls = strings.Join(tr, "+")
+	}
+	return fmt.Sprintf("%s|%s|u=%v|slot=%s|llb=%v|cache=%d|custom=%v", cls, c.Profile, c.Unique, slot, c.LLB, c.Cache, c.Custom)
 }
 
 // ---------------------------------------------------------------------------------------------
@@ -315,6 +332,7 @@ func (j *judgeCtx) report(observer, outcome string, detail map[string]any) {
 	j.seen[sig] = true
 	detail["case"] = j.c
 	detail["observer"] = observer
+	detail["key_shaped"] = triggers(j.c.Name, j.c.Desc)
 	*j.out = append(*j.out, finding{sig, detail})
 }
 
@@ -922,10 +940,20 @@ func Run(r *report.Run) int {
 		})
 
 	// 3. accounting
-	sort.Slice(vios, func(i, j int) bool { return vios[i].sig < vios[j].sig })
+	sort.SliceStable(vios, func(i, j int) bool { return vios[i].sig < vios[j].sig })
+	inputsBySig := map[string][]map[string]string{}
 	for _, v := range vios {
 		r.Violation(v.sig, v.detail)
+		if len(inputsBySig[v.sig]) < 3 {
+			switch c := v.detail["case"].(type) {
+			case caseSpec:
+				inputsBySig[v.sig] = append(inputsBySig[v.sig], map[string]string{"name": c.Name, "description": c.Desc, "profile": c.Profile})
+			case map[string]any:
+				inputsBySig[v.sig] = append(inputsBySig[v.sig], map[string]string{"name": fmt.Sprint(c["name"]), "description": fmt.Sprint(c["desc"]), "profile": fmt.Sprint(c["profile"])})
+			}
+		}
 	}
+	r.Set("violating_inputs_by_signature", inputsBySig)
 	var created, rejected, commitErr, panics int64
 	classes := map[string]int{}
 	for _, c := range cases {
@@ -934,7 +962,11 @@ func Run(r *report.Run) int {
 			r.Eval(c.fingerprint(), false)
 			continue
 		}
-		classes[c.inputClass()]++
+		if tr := triggers(c.Name, c.Desc); len(tr) > 0 {
+			classes[strings.Join(tr, "+")]++
+		} else {
+			classes[c.inputClass()]++
+		}
 		r.Count("commits", int64(h.Commits))
 		r.Count("count_changing_commits", int64(h.CountChange))
 		r.Count("fast_path_commits", int64(h.FastPath))
